@@ -940,7 +940,7 @@ class Fxp():
                     self.val[index] = new_val
                 else:
                     # (the value of a scalar complex object - or of an element taken out of an array - is a numpy scalar, which cannot be written into)
-                    _val = np.array(self.val, dtype=object if (val_dtype == object or isinstance(self.val, int)) else None)
+                    _val = np.array(self.val, dtype=object if (isinstance(new_val, int) or isinstance(self.val, int)) else None)
                     _val[index] = new_val
                     self.val = _val[()]
             else:
